@@ -183,7 +183,8 @@ def generate(seed, tier, index=0):
         for i in rng.sample(range(16), rng.randint(1, 10)):
             take_w[i] = 0.0005
     sched = {"policy": "seeded", "seed": rng.getrandbits(32), "take_w": take_w, "deliver_w": deliver_w,
-             "deliver_bias": deliver_bias, "eager": rng.choice([0.0, 0.0, 0.3, 0.7, 1.0])}
+             "deliver_bias": deliver_bias, "eager": rng.choice([0.0, 0.0, 0.3, 0.7, 1.0]),
+             "timeout_p": rng.choice([0.0, 0.0, 0.3, 1.0])}
     ops = []
     for _ in range(swarm["steps"]):
         mode = rng.choice(swarm["modes"])
@@ -434,6 +435,8 @@ def execute(trace, ctx=None):
     stats["sched_events"] = summ["events"]
     stats["pool_tasks"] = summ["tasks"]
     stats["out_of_order_delivery"] = summ["out_of_order_delivery"]
+    stats["seam_timed_wait_expired"] = summ.get("timed_wait_expired", 0)
+    stats["seam_sleep_calls"] = summ.get("sleep_seam_calls", 0)
     stats["worker_never_used"] = summ["worker_never_used"]
     stats["multi_chunk_pools"] = summ["multi_chunk_pools"]
     faults = (trace.get("swarm") or {}).get("faults", [])
